@@ -19,7 +19,7 @@ PROPS = {
     'C06': {'units': ['bind', 'pchain', 'pexec'], 'kani': [], 'only': {'pexec': r'compact_header|limb_ctl_enabled'}},
     'C17': {'units': ['cache', 'rcplug'], 'kani': []},
     'C10': {'units': ['sched', 'tracegen', 'ptrace', 'vrfy'], 'kani': []},
-    'C18': {'units': ['dsu', 'order', 'pphase', 'fvalid', 'iterord'], 'kani': []},
+    'C18': {'units': ['dsu', 'order', 'pphase', 'fvalid', 'iterord', 'hashord'], 'kani': []},
     'C14': {'units': ['pack', 'pack2', 'pack3', 'pubin'], 'kani': []},
     'C12': {'units': ['bits', 'chal', 'coef', 'rcair', 'prep'], 'kani': [], 'only': {'chal': r'canonical_width', 'prep': r'operand_[ac]_takes_part_in_the_witness_bus'}},
     'C15': {'units': ['shape', 'bshape', 'openin', 'hmerge', 'bprep'], 'kani': [], 'only': {'openin': r'per_matrix_shape_and_grouping|compute_single_reduced_opening|height_group'}},
